@@ -613,8 +613,9 @@ func (w *worker) checkAccessors(c *selCase, text string, m Mode, kinds string, r
 // C08: P.Q == concat over P's results of $.Q ; three real retrievals related, no expected values
 func (w *worker) checkCompose(c *selCase, m Mode, kinds string, raw []byte) {
 	steps := c.Path.Steps
+	cfg := modelConfig(nil, false) // filters may use the model's functions
 	retrieve := func(text string, doc interface{}) resp {
-		pr := safeParse(text, nil)
+		pr := safeParse(text, &cfg)
 		if pr.Err != nil || pr.Panic != nil {
 			return resp{Panic: fmt.Sprintf("parse failed: %v %v", pr.Err, pr.Panic)}
 		}
